@@ -1,6 +1,6 @@
 #!/bin/bash
 # Build /repo's CURRENT working tree (out of tree) into /verif/.cache/build-<variant>.
-# variants: ossl-file (default), ossl-db, asan
+# variants: ossl-file (default), ossl-db, botan-file, botan-db, asan
 # Never writes into /repo. Incremental (ninja), serialized with flock.
 set -e
 VARIANT="${1:-ossl-file}"
@@ -15,7 +15,9 @@ EXTRA=""
 case "$VARIANT" in
   ossl-file) ;;
   ossl-db) EXTRA="-DWITH_OBJECTSTORE_BACKEND_DB=ON" ;;
-  asan) FLAGS="-O1 -g -DSOFTHSM_VERIF -DNDEBUG -fsanitize=address,undefined -fno-sanitize-recover=all -fno-omit-frame-pointer -Wno-error" ;;
+  botan-file) EXTRA="-DWITH_CRYPTO_BACKEND=botan -DCMAKE_CXX_COMPILER_LAUNCHER=$ROOT/tools/cxx-filter.sh" ;;
+  botan-db) EXTRA="-DWITH_CRYPTO_BACKEND=botan -DWITH_OBJECTSTORE_BACKEND_DB=ON -DCMAKE_CXX_COMPILER_LAUNCHER=$ROOT/tools/cxx-filter.sh" ;;
+  asan) export ASAN_OPTIONS=detect_leaks=0; FLAGS="-O1 -g -DSOFTHSM_VERIF -DNDEBUG -fsanitize=address,undefined -fno-sanitize-recover=all -fno-omit-frame-pointer -Wno-error" ;;
   *) echo "unknown variant $VARIANT" >&2; exit 2 ;;
 esac
 if [ ! -f "$B/build.ninja" ]; then
